@@ -42,6 +42,8 @@ pub enum Ev {
     Eval(Data, bool),
     /// assign(location, expr) succeeded / failed
     Assign(Data, Data, bool),
+    /// internal_error_execution(): error.execution placed on the internal queue
+    ErrorExecution,
 }
 
 // TRUSTED stand-in (A3, A8): the data model as executable content sees it.  Every call appends one entry to the ghost
@@ -62,6 +64,13 @@ pub trait Datamodel {
     fn assign(&mut self, left_expr: &Data, right_expr: &Data) -> (r: bool)
         ensures
             final(self).log() == old(self).log().push(Ev::Assign(*left_expr, *right_expr, r)),
+    ;
+
+    /// `get_global!(self).enqueue_internal(Event::error_execution(&None, &None))` (src/datamodel/mod.rs; the queue
+    /// effect itself is verified in unit sendio / interp)
+    fn internal_error_execution(&mut self)
+        ensures
+            final(self).log() == old(self).log().push(Ev::ErrorExecution),
     ;
 
     /// runs a content region through the data model (RFsmExpressionDatamodel::executeContent is verified against
@@ -88,16 +97,3 @@ pub uninterp spec fn dm_has_block(fsm: &Fsm, id: u32) -> bool;
 pub struct RFsmExpressionDatamodel {
     _p: (),
 }
-
-/// TRUSTED (A4): Result::unwrap_or_else
-pub assume_specification<T, E, F> [std::result::Result::<T, E>::unwrap_or_else] (res: std::result::Result<T, E>, f: F) -> (r: T)
-    where
-        F: std::ops::FnOnce(E,) -> T + std::marker::Destruct,
-    requires
-        res is Err ==> f.requires((res->Err_0,)),
-    ensures
-        match res {
-            Ok(v) => r == v,
-            Err(e) => f.ensures((e,), r),
-        },
-;
